@@ -1,8 +1,204 @@
+// pbgen regenerates the protobuf Go code of apache/skywalking-banyandb fully
+// offline, without protoc/buf or any protoc plugin binaries.
+//
+// Usage:
+//
+//	export GOFLAGS=-mod=mod GOPROXY=off
+//	cd /verif/pbgen && go build -o /verif/bin/pbgen .
+//	/verif/bin/pbgen -repo /repo -out /tmp/pbout
+//	cd /repo && go build -overlay /tmp/pbout/overlay.json ./...
+//
+// What it does:
+//  1. parses every *.proto under <repo>/api/proto with its own proto3 parser
+//     (parser.go) and resolves type names with protoc's scoping rules
+//     (resolve.go). All options except go_package/deprecated/allow_alias/
+//     json_name are parsed and discarded (so no validate rules, http bindings
+//     or openapi annotations end up in the descriptors). Imports are kept as
+//     written; external imports (google/protobuf/*, validate, google/api,
+//     protoc-gen-openapiv2) are taken from protoregistry.GlobalFiles via the
+//     blank imports below.
+//  2. runs the real protoc-gen-go (internal_gengo) in-process to produce
+//     <out>/api/proto/<path>.pb.go, so reflection/Marshal/protojson are real.
+//  3. emits with its own generators (gen.go):
+//     *_grpc.pb.go      protoc-gen-go-grpc v1.5+ style (generic stream types +
+//     Xxx_MethodClient/Server aliases), fully functional;
+//     *.pb.validate.go  no-op Validate()/ValidateAll() for every message;
+//     *.pb.gw.go        grpc-gateway Register*Handler* stubs returning nil.
+//  4. writes <out>/overlay.json for `go build|vet|test -overlay`, mapping
+//     <repo>/api/proto/... paths to the generated files.
+//  5. (-stub-ui, default true) if <repo>/ui/embed.go exists but the npm-built
+//     <repo>/ui/dist does not, adds a placeholder <repo>/ui/dist/index.html to
+//     the overlay so that `//go:embed dist` in package ui (imported by
+//     banyand/liaison/http and thus the server binaries) type-checks.
+//
+// Output is deterministic. The module path of this program is
+// google.golang.org/protobuf/cmd/protoc-gen-go/pbgen on purpose: it makes the
+// Go "internal" rule accept the import of .../protoc-gen-go/internal_gengo
+// from the (unmodified, module-cache) google.golang.org/protobuf module.
 package main
 
 import (
+	"encoding/json"
+	"flag"
 	"fmt"
-	_ "google.golang.org/protobuf/cmd/protoc-gen-go/internal_gengo"
+	"io/fs"
+	"os"
+	"path/filepath"
+	"strings"
+
+	"google.golang.org/protobuf/types/descriptorpb"
+
+	// external .proto dependencies, resolved through protoregistry.GlobalFiles
+	_ "github.com/envoyproxy/protoc-gen-validate/validate"
+	_ "github.com/grpc-ecosystem/grpc-gateway/v2/protoc-gen-openapiv2/options"
+	_ "google.golang.org/genproto/googleapis/api/annotations"
+	_ "google.golang.org/protobuf/types/known/anypb"
+	_ "google.golang.org/protobuf/types/known/durationpb"
+	_ "google.golang.org/protobuf/types/known/emptypb"
+	_ "google.golang.org/protobuf/types/known/fieldmaskpb"
+	_ "google.golang.org/protobuf/types/known/structpb"
+	_ "google.golang.org/protobuf/types/known/timestamppb"
+	_ "google.golang.org/protobuf/types/known/wrapperspb"
 )
 
-func main() { fmt.Println("ok") }
+const protoRoot = "api/proto" // relative to -repo; also the protoc include root
+
+func main() {
+	repo := flag.String("repo", "", "path to the skywalking-banyandb checkout")
+	out := flag.String("out", "", "output directory")
+	stubUI := flag.Bool("stub-ui", true, "overlay a placeholder ui/dist/index.html when <repo>/ui/dist is missing")
+	flag.Parse()
+	if *repo == "" || *out == "" || flag.NArg() != 0 {
+		fmt.Fprintln(os.Stderr, "usage: pbgen -repo <repo> -out <outdir> [-stub-ui=false]")
+		os.Exit(2)
+	}
+	if err := run(*repo, *out, *stubUI); err != nil {
+		fmt.Fprintln(os.Stderr, "pbgen:", err)
+		os.Exit(1)
+	}
+}
+
+func run(repo, out string, stubUI bool) error {
+	repo, err := filepath.Abs(repo)
+	if err != nil {
+		return err
+	}
+	if out, err = filepath.Abs(out); err != nil {
+		return err
+	}
+	root := filepath.Join(repo, filepath.FromSlash(protoRoot))
+
+	// 1. parse
+	u := &universe{files: map[string]*descriptorpb.FileDescriptorProto{}, local: map[string]bool{}}
+	err = filepath.WalkDir(root, func(p string, d fs.DirEntry, err error) error {
+		if err != nil || d.IsDir() || !strings.HasSuffix(p, ".proto") {
+			return err
+		}
+		rel, err := filepath.Rel(root, p)
+		if err != nil {
+			return err
+		}
+		src, err := os.ReadFile(p)
+		if err != nil {
+			return err
+		}
+		name := filepath.ToSlash(rel)
+		fd, err := parseProto(name, string(src))
+		if err != nil {
+			return err
+		}
+		u.files[name], u.local[name] = fd, true
+		return nil
+	})
+	if err != nil {
+		return err
+	}
+	if len(u.local) == 0 {
+		return fmt.Errorf("no .proto files under %s", root)
+	}
+	locals := sortedKeys(u.local)
+
+	// 2. link
+	for _, name := range locals {
+		for _, dep := range u.files[name].Dependency {
+			if !u.local[dep] {
+				if err := u.loadExternal(dep); err != nil {
+					return fmt.Errorf("%s: %v", name, err)
+				}
+			}
+		}
+	}
+	if err := u.index(); err != nil {
+		return err
+	}
+	for _, name := range locals {
+		if err := u.resolveFile(name); err != nil {
+			return err
+		}
+	}
+	all, err := u.topoOrder()
+	if err != nil {
+		return err
+	}
+
+	// 3. generate
+	files, err := generate(all, locals)
+	if err != nil {
+		return err
+	}
+
+	// 4. write
+	outRoot := filepath.Join(out, filepath.FromSlash(protoRoot))
+	if err := os.RemoveAll(outRoot); err != nil {
+		return err
+	}
+	overlay := struct{ Replace map[string]string }{map[string]string{}}
+	names := sortedKeys(files)
+	for _, name := range names {
+		dst := filepath.Join(outRoot, filepath.FromSlash(name))
+		if err := os.MkdirAll(filepath.Dir(dst), 0o755); err != nil {
+			return err
+		}
+		if err := os.WriteFile(dst, files[name], 0o644); err != nil {
+			return err
+		}
+		overlay.Replace[filepath.Join(root, filepath.FromSlash(name))] = dst
+	}
+	uiNote := ""
+	if _, err := os.Stat(filepath.Join(repo, "ui", "embed.go")); stubUI && err == nil {
+		if _, err := os.Stat(filepath.Join(repo, "ui", "dist")); os.IsNotExist(err) {
+			dst := filepath.Join(out, "ui", "dist", "index.html")
+			if err := os.MkdirAll(filepath.Dir(dst), 0o755); err != nil {
+				return err
+			}
+			if err := os.WriteFile(dst, []byte("<!doctype html><title>pbgen placeholder for ui/dist</title>\n"), 0o644); err != nil {
+				return err
+			}
+			overlay.Replace[filepath.Join(repo, "ui", "dist", "index.html")] = dst
+			uiNote = " + ui/dist placeholder"
+		}
+	}
+	js, err := json.MarshalIndent(overlay, "", "  ") // map keys are emitted sorted
+	if err != nil {
+		return err
+	}
+	if err := os.WriteFile(filepath.Join(out, "overlay.json"), append(js, '\n'), 0o644); err != nil {
+		return err
+	}
+	kinds := map[string]int{}
+	for _, n := range names {
+		base := filepath.Base(n)
+		switch i := strings.IndexByte(base, '.'); {
+		case strings.HasSuffix(base, "_grpc.pb.go"):
+			kinds["_grpc.pb.go"]++
+		default:
+			kinds[base[i:]]++
+		}
+	}
+	var parts []string
+	for _, k := range sortedKeys(kinds) {
+		parts = append(parts, fmt.Sprintf("%d *%s", kinds[k], k))
+	}
+	fmt.Printf("pbgen: %d proto files -> %d Go files (%s)%s in %s\n", len(locals), len(names), strings.Join(parts, ", "), uiNote, outRoot)
+	return nil
+}
